@@ -60,12 +60,12 @@ type lkField struct {
 }
 
 type lkPkg struct {
-	dir     string // relative to the repo root, "" for the root package
+	dir     string            // relative to the repo root, "" for the root package
 	imports map[string]string // local import name -> package dir (in-tree imports only)
 	outside map[string]bool   // local names of out-of-tree imports
 	structs map[string][]lkField
 	ifaces  map[string][]string
-	named   map[string]ast.Expr // other named types: name -> underlying type expression
+	named   map[string]ast.Expr           // other named types: name -> underlying type expression
 	methods map[string]map[string]*lkFunc // type name -> method name -> func
 	funcs   map[string]*lkFunc
 }
@@ -95,14 +95,14 @@ type lkFunc struct {
 	env0     map[string]lkType // environment inherited by a function literal
 	initHeld []string
 
-	direct  map[string]token.Pos // locks taken directly
-	calls   []lkCall
-	edges   map[[2]string]token.Pos
-	returns map[string]bool // locks that may be held when the function returns
-	releases map[string]bool // locks the function unlocks without having taken them (helpers like `unlock()`)
+	direct   map[string]token.Pos // locks taken directly
+	calls    []lkCall
+	edges    map[[2]string]token.Pos
+	returns  map[string]bool      // locks that may be held when the function returns
+	releases map[string]bool      // locks the function unlocks without having taken them (helpers like `unlock()`)
 	funcVals map[string][]*lkFunc // local variables holding function literals (shared with the literals of this function)
-	acq     map[string]bool // transitive
-	lits    []*lkFunc
+	acq      map[string]bool      // transitive
+	lits     []*lkFunc
 }
 
 type lkWorld struct {
@@ -434,10 +434,10 @@ type lkWalker struct {
 	fn  *lkFunc
 	env lkEnv
 	// exits
-	retHeld   map[string]bool
-	deferred  map[string]bool // locks released by a deferred Unlock
-	breakSt   [][]string
-	contSt    [][]string
+	retHeld  map[string]bool
+	deferred map[string]bool // locks released by a deferred Unlock
+	breakSt  [][]string
+	contSt   [][]string
 }
 
 func (x *lkWalker) foreignType(t lkType) lkType {
@@ -1453,4 +1453,3 @@ func extractLocks(repo string) (string, error) {
 	b.WriteString("]\n\n")
 	return b.String(), nil
 }
-
